@@ -418,7 +418,7 @@ def plan(tier, seed):
     else:
         runs = [("W-nest", "full", 3), ("W-nest-4", "reduced", 4), ("W-mix", "mix", 3), ("W-deep", "deep", 4), ("W-flat", "freeze", 7),
                 ("W-nest-4", "freeze", 6)]
-        cyc_depth = 4
+        cyc_depth = 3
         scopes = [(1, 1), (2, 2), (3, 3), (4, 4)]
     jobs.append({"name": "sorter", "mode": "compiled", "hashseed": 0, "nproc": 8, "timeout": 3000,
                  "args": {"kind": "sorter", "scopes": scopes}})
